@@ -10,23 +10,7 @@
 (*   D4 an implicit HALT word follows the image                            *)
 (*   D5 the executable window is [origin, 0xFE00)                          *)
 (***************************************************************************)
-EXTENDS ISA
-
-UserEnd  == 65024          \* 0xFE00
-HaltWord == 61477          \* 0xF025
-DefaultOrigin == 12288     \* 0x3000
-
-(* an image of n words at origin o can be loaded iff it and the sentinel fit below 2^16 *)
-LoaderAccepts(o, n) == o + n + 1 <= 65536
-
-LoadState(o, words) ==
-  [reg |-> [k \in 0 .. 7 |-> IF k = 7 THEN UserEnd - 1 ELSE 0],
-   pc  |-> o,
-   cc  |-> 0,
-   mem |-> [a \in o .. (o + Len(words)) |->
-              IF a - o < Len(words) THEN words[a - o + 1] ELSE HaltWord]]
-
-InWindow(o, pc) == pc >= o /\ pc < UserEnd
+EXTENDS ISA, MachineDefs
 
 VARIABLES
   st,       \* machine state record (see ISA)
